@@ -7,7 +7,7 @@
    Not modelled (compared by the harness only): Probe.reset_position inside
    find_probe_loc_from_frontwall — the model starts from the PCS coordinates with
    PCS = GCS; complex (analytic) timetraces in detect_surface_from_extrema. *)
-From Coq Require Import Reals ZArith List Bool Permutation PrimFloat.
+From Coq Require Import Reals ZArith List Bool Permutation PrimFloat Lra.
 From Arim Require Import Base.Num Base.NumR Base.NumF Model.Registration
   Proofs.RegistrationProofs Proofs.RegistrationTimeProofs.
 Import ListNotations.
@@ -183,6 +183,10 @@ Theorem extrema_complete : forall samples imin imax row i,
 Proof. exact detect_trace_complete. Qed.
 
 (* == non-vacuity ================================================================ *)
+(* the oracle hypothesis is satisfiable (a total least-squares minimiser exists) *)
+Theorem ls_oracle_exists : exists fit, is_ls_minimiser fit.
+Proof. exact ls_minimiser_exists. Qed.
+
 (* the hypotheses of registration_recovers are satisfiable: two elements at x = 0 and
    x = 1, a three-timetrace frame in a non-canonical order with garbage (-7) on the
    cross timetrace, tilt 0, standoff 1 *)
@@ -191,8 +195,41 @@ Example registration_recovers_instance :
   = inr (mkMove (-1) 0 (map (fun x => (cos 0 * x, 0, - (sin 0 * x - (-1)))) [0; 1])
                 ((0, 0, -1), (cos 0, 0, - sin 0), (0, 1, 0))).
 Proof.
-  assert (is_ls_minimiser (fit_line NumR) -> True) as _ by trivial.
-  rewrite <- (registration_oracle_free (fit_line NumR)).
-  2:{ (* any oracle hypothesis is discharged by the theorem about the closed form only when
-         two abscissae differ; here we go through the direct theorem instead *) admit_free. }
-Abort.
+  assert (selected [false; false] [1; 0; 0]%Z [1; 1; 0]%Z [1; -7; 1] = [((1, 1)%Z, 1); ((0, 0)%Z, 1)]) as Hsel
+      by reflexivity.
+  apply move_probe_recovers_closed.
+  - pose proof PI_RGT_0. lra.
+  - reflexivity.
+  - reflexivity.
+  - rewrite Hsel. cbn [length]. apply le_n.
+  - rewrite Hsel. intros t [<- | [<- | []]]; unfold trace_x, tr_tx, tr_d; cbn [fst snd length nth Z.to_nat Pos.to_nat Pos.iter_op Nat.add];
+      rewrite sin_0; (split; [split; [apply Z.leb_le | apply Z.ltb_lt]; reflexivity | split; lra]).
+  - rewrite Hsel.
+    assert (map (trace_x [0; 1]) [((1, 1)%Z, 1); ((0, 0)%Z, 1)] = [1; 0]) as -> by reflexivity.
+    apply (spread_not_close _ 0 1 1).
+    + right. left. reflexivity.
+    + left. reflexivity.
+    + intros x [<- | [<- | []]]; [rewrite Rabs_R1 | rewrite Rabs_R0]; lra.
+    + replace (0 - 1) with (- (1)) by ring. rewrite Rabs_Ropp, Rabs_R1. unfold tolA, tolR. lra.
+Qed.
+
+(* binary64 executions of the model (vm_compute): the negative extremum -3 wins over 2,
+   the FIRST of the tied |values| is returned, window bounds on samples are inclusive *)
+Example detect_surface_instance :
+  detect_surface NumF (time_samples NumF 10%float 1%float 6%Z) [[1; -3; 2; 3; -3; 0.5]%float] (Some 11%float) (Some 14%float)
+  = Some [11%float].
+Proof. vm_compute. reflexivity. Qed.
+
+Example detect_surface_value_not_abs_would_differ :
+  detect_surface NumF (time_samples NumF 10%float 1%float 6%Z) [[1; -3; 2; 2.5; -1; 0.5]%float] None None = Some [11%float].
+Proof. vm_compute. reflexivity. Qed.
+
+Example detect_surface_empty_window :
+  detect_surface NumF (time_samples NumF 10%float 1%float 6%Z) [[1; -3; 2; 3; -3; 0.5]%float] (Some 11.25%float) (Some 11.75%float)
+  = None.
+Proof. vm_compute. reflexivity. Qed.
+
+Example window_instance :
+  window NumF (time_samples NumF 10%float 1%float 6%Z) (Some 11%float) (Some 14%float) true true = (1%nat, 5%nat)
+  /\ window NumF (time_samples NumF 10%float 1%float 6%Z) (Some 11%float) (Some 14%float) false false = (2%nat, 4%nat).
+Proof. split; vm_compute; reflexivity. Qed.
